@@ -293,24 +293,29 @@ impl JoinOp {
         Schema::new_table_with_num_keys(cols, 0)
     }
 
-    /// Checks if this is an equi-join.
+    /// Checks if this is an equi-join: a conjunction of `column = column` terms, each relating a
+    /// column of the left input to a column of the right input (in either order).
     pub fn is_equi_join(&self) -> bool {
+        let left_cols = self.left_schema.num_columns();
         self.condition
             .as_ref()
-            .map_or(false, |c| Self::is_equi_condition(c))
+            .map_or(false, |c| Self::is_equi_condition(c, left_cols))
     }
 
-    fn is_equi_condition(expr: &BoundExpression) -> bool {
+    fn is_equi_condition(expr: &BoundExpression, left_cols: usize) -> bool {
         match expr {
             BoundExpression::BinaryOp {
                 op, left, right, ..
             } => match op {
-                BinaryOperator::Eq => {
-                    matches!(left.as_ref(), BoundExpression::ColumnBinding(_))
-                        && matches!(right.as_ref(), BoundExpression::ColumnBinding(_))
-                }
+                BinaryOperator::Eq => match (left.as_ref(), right.as_ref()) {
+                    (BoundExpression::ColumnBinding(l), BoundExpression::ColumnBinding(r)) => {
+                        (l.column_idx < left_cols) != (r.column_idx < left_cols)
+                    }
+                    _ => false,
+                },
                 BinaryOperator::And => {
-                    Self::is_equi_condition(left) && Self::is_equi_condition(right)
+                    Self::is_equi_condition(left, left_cols)
+                        && Self::is_equi_condition(right, left_cols)
                 }
                 _ => false,
             },
@@ -318,16 +323,20 @@ impl JoinOp {
         }
     }
 
-    /// Extracts equi-join keys as (left_col, right_col) pairs.
+    /// Extracts equi-join keys as (left_col, right_col) pairs, both as indices in the combined schema.
     pub fn extract_equi_keys(&self) -> Vec<(usize, usize)> {
         let mut keys = Vec::new();
         if let Some(cond) = &self.condition {
-            Self::collect_equi_keys(cond, &mut keys);
+            Self::collect_equi_keys(cond, self.left_schema.num_columns(), &mut keys);
         }
         keys
     }
 
-    fn collect_equi_keys(expr: &BoundExpression, keys: &mut Vec<(usize, usize)>) {
+    fn collect_equi_keys(
+        expr: &BoundExpression,
+        left_cols: usize,
+        keys: &mut Vec<(usize, usize)>,
+    ) {
         match expr {
             BoundExpression::BinaryOp {
                 op, left, right, ..
@@ -336,12 +345,17 @@ impl JoinOp {
                     if let (BoundExpression::ColumnBinding(l), BoundExpression::ColumnBinding(r)) =
                         (left.as_ref(), right.as_ref())
                     {
-                        keys.push((l.column_idx, r.column_idx));
+                        // the condition may name the right input's column first
+                        if l.column_idx < left_cols {
+                            keys.push((l.column_idx, r.column_idx));
+                        } else {
+                            keys.push((r.column_idx, l.column_idx));
+                        }
                     }
                 }
                 BinaryOperator::And => {
-                    Self::collect_equi_keys(left, keys);
-                    Self::collect_equi_keys(right, keys);
+                    Self::collect_equi_keys(left, left_cols, keys);
+                    Self::collect_equi_keys(right, left_cols, keys);
                 }
                 _ => {}
             },
